@@ -168,8 +168,11 @@ impl View {
                     if chosen.is_none() {
                         // prefer a datagram of the response's own protocol (responses leave in
                         // request order per protocol), else any datagram from that address
+                        // (a request the protocol obliges the server to answer is a likelier origin than
+                        // one it may ignore, e.g. a non-standard nonce length that stays unanswered)
+                        let must_answer = cands.iter().copied().find(|&i| matches!(&recvs[i].class, Ok(info) if info.proto == proto && info.must == r::Must::Answer));
                         let same_proto = cands.iter().copied().find(|&i| matches!(&recvs[i].class, Ok(info) if info.proto == proto));
-                        if let Some(i) = same_proto.or(cands.first().copied()) {
+                        if let Some(i) = must_answer.or(same_proto).or(cands.first().copied()) {
                             let v = match &recvs[i].class {
                                 Ok(info) => Some(r::verify_response(data, &r::VerifyOpts { proto: info.proto, request: &recvs[i].data, nonce: &info.nonce, long_term_pk: if long_pk.is_empty() { None } else { Some(long_pk) }, require_nonce_echo: true, lenient: false })),
                                 Err(_) => None,
